@@ -55,6 +55,10 @@ NoneI == -1                       \* "None" for integer parameters
 Item(i, p) == [s |-> i, p |-> p, k |-> cfg.data[i][p]]
 NSrc == Len(cfg.data)
 
+\* par.alias: the *same* iterator object is passed at every position (the grouper recipe
+\* zip(*[it] * n)): every pull, whatever position it is for, advances source 1
+Aliased == "alias" \in DOMAIN cfg.par /\ cfg.par.alias
+
 \* effects a tool can request
 Pull(i)     == [e |-> "pull", i |-> i]
 Call(f, a)  == [e |-> "call", f |-> f, a |-> a]
@@ -593,6 +597,8 @@ ConfigsOf(t) ==
          \* key 0 stands for an item that is the object None (nothing may be read into that)
          {[tool |-> t, par |-> [strict |-> b], data |-> d] :
              b \in BOOLEAN, d \in UNION {DataSets(n, K01) : n \in 0..MaxSrc} \cup WideSets(K01)}
+         \cup {[tool |-> t, par |-> [strict |-> b, alias |-> TRUE], data |-> [i \in 1..n |-> d]] :
+                b \in BOOLEAN, n \in 2..(MaxSrc + 1), d \in SeqsUpTo(K1, MaxLen + 1)}
     [] t = "map" ->
          {[tool |-> t, par |-> NoPar, data |-> d] : d \in UNION {DataSets(n, K1) : n \in 1..2}}
     [] t \in {"filter", "filterfalse"} ->
@@ -622,6 +628,8 @@ ConfigsOf(t) ==
              c \in {NoneI} \cup 1..3, d \in {dd \in DataSets(1, K1) : Len(dd[1]) \in {0, 1, MaxLen - 1, MaxLen}}}
     [] t = "zip_longest" ->
          {[tool |-> t, par |-> [fill |-> f], data |-> d] : f \in {"fresh", "first"}, d \in UNION {DataSets(n, K1) : n \in 0..MaxSrc} \cup WideSets(K1)}
+         \cup {[tool |-> t, par |-> [fill |-> "fresh", alias |-> TRUE], data |-> [i \in 1..n |-> d]] :
+                n \in 2..(MaxSrc + 1), d \in SeqsUpTo(K1, MaxLen + 1)}
     [] t = "merge" ->
          UNION {{[tool |-> t, par |-> [key |-> b, rev |-> v], data |-> d] :
                    b \in BOOLEAN,
@@ -719,7 +727,7 @@ ToolStep ==
   /\ LET res == Step(st, reply)  eff == res.eff IN
      /\ st' = res.s
      /\ CASE eff.e = "pull" ->
-               LET i == eff.i IN
+               LET i == IF Aliased THEN 1 ELSE eff.i IN      \* one iterator object at every position
                \/ /\ pos[i] < SrcLen(i)
                   /\ pos' = [pos EXCEPT ![i] = @ + 1]
                   /\ sst' = [sst EXCEPT ![i] = "open"]
@@ -800,7 +808,7 @@ Exhausted == Done /\ LastEv \in {"end", "return"}
 \* never pulled again
 NoUseAfterFault == fault # 0 => Done /\ nuse = fault
 NoPullAfterStop ==
-  cfg.tool \notin {"batched", "anext"} =>
+  (cfg.tool \notin {"batched", "anext"} /\ ~Aliased) =>
   \A i \in 0..NSrc :
      LET p == PullsOf(i) IN \A j \in 1..(Len(p) - 1) : p[j].res = "item"
 
@@ -810,13 +818,13 @@ TotalLen == LenUpTo(NSrc)
 
 \* C01: independent, declarative definitions of what full consumption produces
 DeclZip ==
-  (cfg.tool = "zip" /\ Exhausted /\ NSrc > 0) =>
+  (cfg.tool = "zip" /\ Exhausted /\ NSrc > 0 /\ ~Aliased) =>
      LET m == CHOOSE m \in 0..MaxLen : (\A i \in 1..NSrc : Len(cfg.data[i]) >= m)
                                       /\ (\E i \in 1..NSrc : Len(cfg.data[i]) = m) IN
      /\ Len(Yields) = m
      /\ \A j \in 1..m : Yields[j].v = [i \in 1..NSrc |-> Item(i, j)]
 DeclZipStrict ==
-  (cfg.tool = "zip" /\ cfg.par.strict /\ Done /\ fault = 0 /\ LastEv # "close" /\ NSrc > 0) =>
+  (cfg.tool = "zip" /\ cfg.par.strict /\ Done /\ fault = 0 /\ LastEv # "close" /\ NSrc > 0 /\ ~Aliased) =>
      (LastEv = "raise") = (\E i, j \in 1..NSrc : Len(cfg.data[i]) # Len(cfg.data[j]))
 DeclChain ==
   (cfg.tool = "chain" /\ Exhausted) =>
@@ -910,9 +918,20 @@ DeclCycle ==
   (cfg.tool = "cycle" /\ Len(Src1) > 0) =>
      \A j \in 1..Len(YV) : YV[j] = Src1[((j - 1) % Len(Src1)) + 1]
 DeclZipLongest ==
-  (cfg.tool = "zip_longest" /\ Exhausted /\ NSrc > 0) =>
+  (cfg.tool = "zip_longest" /\ Exhausted /\ NSrc > 0 /\ ~Aliased) =>
      LET m == CHOOSE m \in 0..MaxLen : (\A i \in 1..NSrc : Len(cfg.data[i]) <= m) /\ (\E i \in 1..NSrc : Len(cfg.data[i]) = m) IN
      YV = [j \in 1..m |-> [i \in 1..NSrc |-> IF j <= Len(cfg.data[i]) THEN Item(i, j) ELSE Fill]]
+
+\* the grouper recipe: the same iterator n times chops its items into consecutive n-tuples
+DeclGrouper ==
+  (cfg.tool \in {"zip", "zip_longest"} /\ Aliased /\ Exhausted /\ NSrc > 0) =>
+     LET d == Len(cfg.data[1])  n == NSrc
+         full == d \div n
+         rows == IF cfg.tool = "zip_longest" /\ d % n # 0 THEN full + 1 ELSE full IN
+     /\ Len(Yields) = rows
+     /\ \A j \in 1..rows : \A i \in 1..n :
+           LET p == (j - 1) * n + i IN
+           Yields[j].v[i] = IF p <= d THEN Item(1, p) ELSE Fill
 
 \* every case is written once, when the machine is done
 Emit == (Done /\ OutFile # "") =>
